@@ -1,10 +1,22 @@
 
 import json,glob,os,re
-det={}
+# per (seed, check) the last line wins; a seed is caught by every check whose latest run exited 1
+per={}
 for l in open('/verif/seeded/detection.jsonl'):
     try: r=json.loads(l)
     except: continue
-    det[r['seed']]=r
+    per.setdefault(r['seed'],{})[r.get('check','?')]=r
+det={}
+for seed,checks in per.items():
+    hits=[r for r in checks.values() if r.get('exit')==1]
+    own=[r for c,r in checks.items() if c==seed.split('-')[0]]
+    if hits:
+        # the check of the seed's own property first
+        hits.sort(key=lambda r: (r.get('check')!=seed.split('-')[0], r.get('check')))
+        r=dict(hits[0]); r['check']=', '.join(h['check'] for h in hits)
+        det[seed]=r
+    else:
+        det[seed]=(own or list(checks.values()))[-1]
 ver={}
 if os.path.exists('/verif/seeded/verify-results.jsonl'):
     for l in open('/verif/seeded/verify-results.jsonl'):
